@@ -37,12 +37,13 @@ DensityNonNegative == (der = 1 /\ welldef) => RLe(RZero, closed)
 Monotone == (der = 0 /\ ef < EFHI /\ welldef /\ WellDefined(ef + 1, e, 0)) => RLe(closed, ClosedOcc(e, ef + 1, 0))
 MonotoneCode == (der = 0 /\ ef < EFHI /\ admissible /\ NotOnDegenerateCorner(ef + 1, e)) => RLe(w, WeightsTetra(ef + 1, e, 0, acc))
 Outside == (welldef => OutsideValue(e, ef, der, closed)) /\ (admissible => OutsideValue(e, ef, der, w))
-OrderIrrelevant == admissible => PermutationInvariant(e, ef, der, acc)
+(* all 24 orders are evaluated for every third Fermi level only (the replay on the real code permutes the corners at every level) *)
+OrderIrrelevant == (admissible /\ (ef % 3) = 0) => PermutationInvariant(e, ef, der, acc)
 (* der n is the n-th derivative of the cubic of the piece whose value (n = 0) is the occupation *)
 DerivativeOfPieceCubic ==
    /\ welldef => closed = PieceCubicDer(PlainPiece(ef, e), e, der, ef)
    /\ admissible => w = PieceCubicDer(Piece(ef, e), e, der, ef)
-BreakPoints == ContinuousAtCorners(e)
+BreakPoints == ef = EFLO => ContinuousAtCorners(e)       \* independent of the Fermi level: once per corner multiset
 (* the one-sided alternative differs from the code's value exactly where the closed form is not defined *)
 OneSidedOnlyAtJumps == admissible => ((alt # w) => ~welldef)
 Nudge == NudgeIrrelevant(ef, e)
